@@ -13,6 +13,8 @@
 //	ext  <B> <B|NIL>  b1.Copy().Extend(b2)
 //	ext3 <B> <B> <B>  (a+b)+c , a+(b+c) , b+a , a+a
 //	ovl  <B> <B>      a.Overlaps(b) and b.Overlaps(a)
+//	self <B>          same pointer on both sides: b.Overlaps(b), b.Overlaps(b.Bounds()), b.Intersection(b), b.Within(b), c.Extend(c)
+//	self3 <A> <B>     triples with a repeated pointer: joins (a+b)+b, (a+a)+b, (b+a)+itself; all-pairs Overlaps/Intersection over {a,b,a}
 //	int  <B> <B>      a.Intersection(b) (box-box branch) and b.Intersection(a)
 //	copy <B>          Copy(), aliasing probe
 //	empty <B>         Empty()
@@ -246,7 +248,7 @@ func corpus() []geom.Geom {
 	inf := math.Inf(1)
 	L := func(p ...geom.Point) geom.LineString { return geom.LineString(p) }
 	R := func(p ...geom.Point) geom.Path { return geom.Path(p) }
-	return []geom.Geom{
+	gs := []geom.Geom{
 		P(1, 2), P(negZero, 0), P(inf, -inf),
 		geom.MultiPoint{}, geom.MultiPoint{P(1, 1)}, geom.MultiPoint{P(0, negZero), P(negZero, 0)},
 		geom.LineString{}, geom.LineString{P(3, 1), P(1, 3)},
@@ -281,6 +283,32 @@ func corpus() []geom.Geom {
 		geom.GeometryCollection{nil}, geom.GeometryCollection{P(1, 1), nil},
 		longRuns(0), longRuns(1), longRuns(2), longRuns(3),
 	}
+	// member / vertex counts around typical size thresholds, at exactly one nesting level
+	for _, n := range []int{63, 64, 65, 127, 128, 129, 1023, 1024, 1025, 2048, 2049} {
+		ps := make([]geom.Point, n)
+		for i := range ps {
+			ps[i] = P(float64((i*7919)%n), float64((i*104729)%(n+1)))
+		}
+		rings := make([]geom.Path, n)
+		for i := range rings {
+			if i%3 != 1 {
+				rings[i] = geom.Path{P(float64(i), float64(n-i))}
+			}
+		}
+		ls := make(geom.MultiLineString, n)
+		pgs := make(geom.MultiPolygon, n)
+		gc := make(geom.GeometryCollection, n)
+		for i := range rings {
+			ls[i] = geom.LineString(rings[i])
+			pgs[i] = geom.Polygon{rings[i]}
+			if i%5 == 0 {
+				pgs[i] = geom.Polygon{}
+			}
+			gc[i] = geom.MultiPoint(rings[i])
+		}
+		gs = append(gs, geom.MultiPoint(ps), geom.LineString(ps), geom.Polygon(rings), geom.Polygon{ps}, ls, pgs, gc)
+	}
+	return gs
 }
 
 // 17 consecutive members without vertices before, between and after two vertices
@@ -408,13 +436,31 @@ func gen(seed uint64, tier string) {
 			}
 		}
 	}
+	// aliased forms: one pointer on both sides, for every catalogue box (empty of both kinds,
+	// degenerate, ordinary, infinite) and pairs with a repeated pointer
+	fmt.Fprintf(out, "self %s\n", boxToks(geom.NewBounds()))
+	for _, ix := range ivs {
+		for _, iy := range ivs {
+			b := mk(ix, iy)
+			fmt.Fprintf(out, "self %s\n", boxToks(b))
+			if r.Intn(4) == 0 {
+				fmt.Fprintf(out, "self3 %s %s\n", boxToks(b), boxToks(mk(riv(), riv())))
+				fmt.Fprintf(out, "self3 %s %s\n", boxToks(genBox(r)), boxToks(b))
+			}
+		}
+	}
+	fmt.Fprintf(out, "self3 %s %s\nself3 %s %s\n", boxToks(geom.NewBounds()), boxToks(geom.NewBounds()),
+		boxToks(geom.NewBounds()), boxToks(&geom.Bounds{Min: P(0, 0), Max: P(1, 1)}))
 	fmt.Fprintf(out, "ext %s NIL\n", boxToks(&geom.Bounds{Min: P(0, 0), Max: P(1, 1)}))
 	fmt.Fprintf(out, "ext %s NIL\n", boxToks(geom.NewBounds()))
 	for i := 0; i < nBox; i++ {
 		a, b, c := genBox(r), genBox(r), genBox(r)
 		A, B, C := boxToks(a), boxToks(b), boxToks(c)
 		fmt.Fprintf(out, "ovl %s %s\nint %s %s\next %s %s\next3 %s %s %s\n", A, B, A, B, A, B, A, B, C)
-		fmt.Fprintf(out, "copy %s\nempty %s\n", A, B)
+		fmt.Fprintf(out, "copy %s\nempty %s\nself %s\n", A, B, C)
+		if i%3 == 0 {
+			fmt.Fprintf(out, "self3 %s %s\n", A, B)
+		}
 		p := pt(r)
 		fmt.Fprintf(out, "nbp %s %s\n", vproto.F2H(p.X), vproto.F2H(p.Y))
 	}
@@ -541,7 +587,129 @@ func runGeom(g geom.Geom) string {
 		mut = 1
 	}
 	fmt.Fprintf(&res, " mut %d", mut)
+	// same addresses, same lengths, other contents: every vertex is transposed (x,y -> y,x) IN PLACE and
+	// Len/Points/Bounds are asked again; a cache keyed by address/length would answer for the old contents
+	g = swapInPlace(g)
+	n2 := -1
+	if pan := vproto.Safe(func() { n2 = g.Len() }); pan != "" {
+		res.WriteString(" swap panic")
+		return res.String()
+	}
+	var got2 []geom.Point
+	st := "ok"
+	if pan := vproto.Safe(func() {
+		it := g.Points()
+		for i := 0; i < n2; i++ {
+			got2 = append(got2, it())
+		}
+	}); pan != "" {
+		st = "panic"
+	}
+	fmt.Fprintf(&res, " swap %d %s %s bnd %s", n2, st, ptsStr(got2), safeBounds(g))
 	return res.String()
+}
+
+func swapPts(ps []geom.Point) {
+	for i := range ps {
+		ps[i].X, ps[i].Y = ps[i].Y, ps[i].X
+	}
+}
+
+// swapInPlace transposes every vertex of g without changing any slice header or pointer
+// (a top-level Point is a value and is returned transposed).
+func swapInPlace(g geom.Geom) geom.Geom {
+	switch t := g.(type) {
+	case geom.Point:
+		return geom.Point{X: t.Y, Y: t.X}
+	case geom.MultiPoint:
+		swapPts(t)
+	case geom.LineString:
+		swapPts(t)
+	case geom.MultiLineString:
+		for _, l := range t {
+			swapPts(l)
+		}
+	case geom.Polygon:
+		for _, l := range t {
+			swapPts(l)
+		}
+	case geom.MultiPolygon:
+		for _, pg := range t {
+			for _, l := range pg {
+				swapPts(l)
+			}
+		}
+	case geom.GeometryCollection:
+		for i := range t {
+			if t[i] != nil {
+				t[i] = swapInPlace(t[i])
+			}
+		}
+	case *geom.Bounds:
+		if t != nil {
+			t.Min.X, t.Min.Y = t.Min.Y, t.Min.X
+			t.Max.X, t.Max.Y = t.Max.Y, t.Max.X
+		}
+	}
+	return g
+}
+
+// rewindow lays the rings / line strings of g out as consecutive windows of ONE flat buffer with
+// spare capacity (buf[0:n1:…], buf[n1:n1+n2:…], …): an append to, or a write past the end of, one
+// member lands in the next one and shows up in the before/after comparison of the input. Members
+// without vertices alternate between nil and an empty window in the middle of the buffer.
+func rewindow(g geom.Geom, ctr *int) geom.Geom {
+	win := func(rings []geom.Path) {
+		total := 0
+		for _, r := range rings {
+			total += len(r)
+		}
+		buf := make([]geom.Point, total, total+8)
+		off := 0
+		for i, r := range rings {
+			copy(buf[off:], r)
+			*ctr++
+			if len(r) == 0 && *ctr%2 == 0 {
+				rings[i] = nil
+			} else {
+				rings[i] = buf[off : off+len(r)] // capacity reaches into the following members
+			}
+			off += len(r)
+		}
+	}
+	switch t := g.(type) {
+	case geom.Polygon:
+		win(t)
+	case geom.MultiLineString:
+		rs := make([]geom.Path, len(t))
+		for i := range t {
+			rs[i] = geom.Path(t[i])
+		}
+		win(rs)
+		for i := range t {
+			t[i] = geom.LineString(rs[i])
+		}
+	case geom.MultiPolygon:
+		var all []geom.Path
+		for _, pg := range t {
+			all = append(all, pg...)
+		}
+		win(all)
+		k := 0
+		for _, pg := range t {
+			for j := range pg {
+				pg[j] = all[k]
+				k++
+			}
+		}
+	case geom.GeometryCollection:
+		for i := range t {
+			if t[i] != nil {
+				t[i] = rewindow(t[i], ctr)
+			}
+		}
+	}
+	return g
 }
 
 func parseBox(p *vproto.Parser) *geom.Bounds {
@@ -558,7 +726,7 @@ func runLine(line string) (res string) {
 	pan := vproto.Safe(func() {
 		switch kind {
 		case "geom":
-			res = runGeom(p.Geom())
+			res = runGeom(rewindow(p.Geom(), new(int)))
 		case "hist":
 			// hist G | P1 | P2 ...: take G.Bounds(), mutate it, then report Bounds() of G and of the others
 			var gs []geom.Geom
@@ -619,6 +787,56 @@ func runLine(line string) (res string) {
 			aa := a.Copy()
 			aa.Extend(a)
 			res = boxRes(l) + " " + boxRes(rr) + " " + boxRes(ba) + " " + boxRes(aa)
+		case "self":
+			// the SAME pointer on both sides of every binary operation (also via b.Bounds(), which returns b)
+			b := parseBox(p)
+			B := boxToks(b)
+			o1, o2, o3 := b.Overlaps(b), b.Overlaps(b.Bounds()), b.Bounds().Overlaps(b)
+			i1 := b.Intersection(b)
+			i2 := b.Intersection(b.Bounds())
+			w1, w2 := b.Within(b), b.Within(b.Bounds())
+			c := b.Copy()
+			c.Extend(c)
+			d := b.Copy()
+			d.Extend(d.Bounds())
+			o4 := b.Overlaps(b) // once more, after everything else
+			res = fmt.Sprintf("ovl %v %v %v %v int %s %s ext %s %s within %d %d", o1, o2, o3, o4, polyRes(i1), polyRes(i2), boxRes(c), boxRes(d), w1, w2)
+			if boxToks(b) != B {
+				res += " argmut"
+			}
+		case "self3":
+			// triples in which two of the three are the same pointer; all-pairs scans include the diagonal
+			a, b := parseBox(p), parseBox(p)
+			A, B := boxToks(a), boxToks(b)
+			t1 := a.Copy()
+			t1.Extend(b)
+			t1.Extend(b)
+			t2 := a.Copy()
+			t2.Extend(t2)
+			t2.Extend(b)
+			t3 := b.Copy()
+			t3.Extend(a)
+			t3.Extend(t3)
+			xs := []*geom.Bounds{a, b, a}
+			var sb strings.Builder
+			sb.WriteString("ovl")
+			for _, x := range xs {
+				for _, y := range xs {
+					fmt.Fprintf(&sb, " %v", x.Overlaps(y))
+				}
+			}
+			sb.WriteString(" int")
+			for _, x := range xs {
+				for _, y := range xs {
+					sb.WriteString(" " + polyRes(x.Intersection(y)))
+				}
+			}
+			// late: the join results are printed after all the other calls
+			sb.WriteString(" ext " + boxRes(t1) + " " + boxRes(t2) + " " + boxRes(t3))
+			res = sb.String()
+			if boxToks(a) != A || boxToks(b) != B {
+				res += " argmut"
+			}
 		case "ovl":
 			a, b := parseBox(p), parseBox(p)
 			res = fmt.Sprintf("%v %v", a.Overlaps(b), b.Overlaps(a))
